@@ -694,49 +694,63 @@ pub fn check_case(
 ) -> Option<Failure> {
     let mut real = Real::new(case);
     let mut pre = case.st.clone();
+    let mut failed: Option<Failure> = None;
     for (k, s) in case.steps.iter().enumerate() {
         let acc = accepts(&pre, s);
         let label = match acc {
             Some(a) => a.to_string(),
             None => op_label(&pre, &|a| real.bus.peek(a)),
         };
-        let single = Case {
-            st: pre.clone(),
-            seed: case.seed,
-            io: real.bus.io.iter().copied().collect(),
-            mem: {
-                let mut v: Vec<(u16, Vec<u8>)> = real.bus.mem.iter().map(|(a, b)| (*a, vec![*b])).collect();
-                v.sort();
-                v
-            },
-            steps: vec![*s],
+        let single = if failed.is_some() {
+            None
+        } else {
+            Some(Case {
+                st: pre.clone(),
+                seed: case.seed,
+                io: real.bus.io.iter().copied().collect(),
+                mem: {
+                    let mut v: Vec<(u16, Vec<u8>)> = real.bus.mem.iter().map(|(a, b)| (*a, vec![*b])).collect();
+                    v.sort();
+                    v
+                },
+                steps: vec![*s],
+            })
         };
         match real.step(s) {
             Err(msg) => {
+                if failed.is_some() {
+                    return failed;
+                }
                 return Some(Failure {
                     step: k,
                     label,
                     diff: Diff { field: "panic".into(), implementation: msg, expected: answers[k].clone() },
-                    single,
-                })
+                    single: single.unwrap(),
+                });
             }
             Ok((post, evs)) => {
                 let loose = mode == Mode::C03 && acc.is_some();
                 // called for every step the real code completed, agreeing with the model or not
                 on_step(k, &label, &pre, &post, &evs);
-                if let Some(d) = diff(mode, loose, &post, &evs, &answers[k]) {
-                    return Some(Failure { step: k, label, diff: d, single });
-                }
-                if mode == Mode::C02 && !answers[k].starts_with(&post.text()) {
-                    // only the hidden MEMPTR differs (the subject of C01, not compared by C02): the two
-                    // sides would carry different hidden state from here on, so the run ends here
-                    return None;
+                if failed.is_none() {
+                    if let Some(d) = diff(mode, loose, &post, &evs, &answers[k]) {
+                        failed = Some(Failure { step: k, label, diff: d, single: single.unwrap() });
+                        if mode != Mode::C02 {
+                            return failed;
+                        }
+                        // C02: the real code keeps running so that the property's predicates are also
+                        // evaluated on the boundaries behind the first divergence from the model
+                    } else if mode == Mode::C02 && !answers[k].starts_with(&post.text()) {
+                        // only the hidden MEMPTR differs (the subject of C01, not compared by C02): the two
+                        // sides would carry different hidden state from here on, so the run ends here
+                        return None;
+                    }
                 }
                 pre = post;
             }
         }
     }
-    None
+    failed
 }
 
 pub fn key_of(mode: Mode, f: &Failure) -> String {
@@ -827,6 +841,19 @@ pub fn shrink(model: &mut Model, mode: Mode, f: Failure) -> Failure {
                     cur.single = cand;
                     changed = true;
                 }
+            }
+        }
+        // overlay entries the failure does not need (seed 0 pattern takes over)
+        let mut i = 0;
+        while i < cur.single.mem.len() {
+            let mut cand = cur.single.clone();
+            cand.mem.remove(i);
+            if let Some(f2) = still(model, &cand) {
+                cur = f2;
+                cur.single = cand;
+                changed = true;
+            } else {
+                i += 1;
             }
         }
         // operand bytes in memory towards zero (never the first byte at PC: it names the opcode)
